@@ -52,6 +52,11 @@ type Zlisp struct {
 
 	// API use, since infix is already default at repl
 	WrapLoadExpressionsInInfix bool
+
+	// sandboxed is set by NewZlispSandbox: nothing that reaches the
+	// outside world (files, processes, environment, exit) may be
+	// installed in or compiled for this interpreter.
+	sandboxed bool
 }
 
 // allow clients to establish a callback to
@@ -90,7 +95,14 @@ func (env *Zlisp) Close() error {
 // NewZlispSandbox returns a new *Zlisp instance that does not allow the
 // user to get to the outside world
 func NewZlispSandbox() *Zlisp {
-	return NewZlispWithFuncs(SandboxSafeFunctions())
+	env := NewZlispWithFuncs(SandboxSafeFunctions())
+	env.sandboxed = true
+	return env
+}
+
+// Sandboxed reports whether env was created by NewZlispSandbox.
+func (env *Zlisp) Sandboxed() bool {
+	return env.sandboxed
 }
 
 // NewZlispWithFuncs returns a new *Zlisp instance with access to only the given builtin functions
@@ -184,6 +196,7 @@ func (env *Zlisp) Clone() *Zlisp {
 	dupenv.showGlobalScope = env.showGlobalScope
 	dupenv.WrapLoadExpressionsInInfix = env.WrapLoadExpressionsInInfix
 	dupenv.booter = env.booter
+	dupenv.sandboxed = env.sandboxed
 	return dupenv
 }
 
@@ -216,6 +229,7 @@ func (env *Zlisp) Duplicate() *Zlisp {
 	dupenv.showGlobalScope = env.showGlobalScope
 	dupenv.WrapLoadExpressionsInInfix = env.WrapLoadExpressionsInInfix
 	dupenv.booter = env.booter
+	dupenv.sandboxed = env.sandboxed
 
 	return dupenv
 }
